@@ -151,6 +151,8 @@ func (lunarTime *LunarTime) GetNineStar() *NineStar {
 	asc := false
 	if strings.Compare(solarYmd, jieQi["冬至"].ToYmd()) >= 0 && strings.Compare(solarYmd, jieQi["夏至"].ToYmd()) < 0 {
 		asc = true
+	} else if strings.Compare(solarYmd, jieQi["DONG_ZHI"].ToYmd()) >= 0 {
+		asc = true
 	}
 	start := 3
 	if asc {
